@@ -8,7 +8,8 @@ Binding (B1):
  * Core positions (const, function, parameter, `mut` local, `let` local, loop variable): the renamed
    program TLC prints is rendered, compiled by the real CLI and run; stdout must equal Run(Base).
  * positions outside the Core subset (type, model field, method, method parameter, enum type, enum
-   variant, match binding, closure parameter): a template program with that one position renamed;
+   variant, match binding, closure parameter, the root variable of a list-element / field / dict-value
+   assignment target): a template program with that one position renamed;
    its behaviour must equal the behaviour of the same template with safe names (observed on the real
    compiler - renaming invariance is exactly the property).
  cheap pre-layer for every (position, name): the real checker and emitter in process.
@@ -45,12 +46,24 @@ def tmpl{N}() -> None:
         None => println(0)
     f = ({cparam}) => {cparam} + 1
     println(f(1))
+    mut {lvl} = [1, 2]
+    {lvl}[0] = 5
+    {lvl}[1] += 2
+    println({lvl}[0] + {lvl}[1])
+    mut {lvo} = {Type}{N}({field}=1)
+    {lvo}.{field} = 3
+    {lvo}.{field} += 4
+    println({lvo}.{field})
+    mut {lvd} = {"k": 1}
+    {lvd}["k"] = 6
+    println({lvd}["k"])
 '''
 SAFE = {"Type": "Widget", "field": "amount", "method": "total", "mparam": "extra", "Enum": "Shade", "Variant": "Dark",
-        "mbind": "got", "cparam": "arg"}
-TEMPLATE_OUT = ["3", "1", "4", "2"]
+        "mbind": "got", "cparam": "arg", "lvl": "items", "lvo": "gadget", "lvd": "table"}
+TEMPLATE_OUT = ["3", "1", "4", "2", "9", "7", "6"]
 # positions where the name is used bare (no per-case suffix possible): one case per name per position
-BARE = ["field", "method", "mparam", "Variant", "mbind", "cparam", "Type", "Enum"]
+# lvl / lvo / lvd: a variable used as the ROOT of an assignment target (list element, field, dict value)
+BARE = ["field", "method", "mparam", "Variant", "mbind", "cparam", "Type", "Enum", "lvl", "lvo", "lvd"]
 
 
 def template_case(pos, name, k):
